@@ -10,7 +10,7 @@ open HW.Proc
     restart, poison and max-restarts paths — went through the whole chain given at spawn. -/
 theorem every_delivery_wrapped (max mw : Nat) (script : List Outcome) (batches : List (List Msg)) :
     allWrapped mw (runHistory max mw script batches).1.trace = true :=
-  all_wrapped max mw script batches
+  Shape.all_wrapped max mw script batches
 
 /-- order: applying the chain `[m₁ … mₙ]` runs m₁ outermost, …, mₙ innermost, the receiver last,
     each exactly once, for every chain length. -/
